@@ -733,8 +733,12 @@ def record_exploration(chk: Check, ex: dict, thorough: bool) -> list[dict]:
     import c01_explore as X
     sel, res = ex["sel"], ex["res"]
     by_status: dict[str, int] = {}
+    n_border = 0
+    n_declared = 0
     for c, r_ in zip(sel, res):
         by_status[r_["status"]] = by_status.get(r_["status"], 0) + 1
+        n_border += sum(1 for d in r_.get("draws", []) if d.get("borderline"))
+        n_declared += sum(1 for d in r_.get("draws", []) if d.get("declared_tolerance_fallback"))
         draws = r_.get("draws", [])
         chk.count({"stage": "exploration", "testcase": c["id"], "status": r_["status"],
                    "draws": [{k: d.get(k) for k in ("kind", "status", "inputs_digest", "worst_ratio")} for d in draws]},
@@ -744,9 +748,11 @@ def record_exploration(chk: Check, ex: dict, thorough: bool) -> list[dict]:
         "label": "EXPLORATION (not proof): ORT vs eager JAX on adversarial inputs",
         "registered_testcase_variants": ex["cases"], "eligible": ex["pool"], "selected": len(sel), "executed": done,
         "fraction_executed": round(done / max(1, ex["pool"]), 4), "draw_kinds": ex["kinds"],
-        "status_counts": by_status, "workers": ex["workers"], "wall_s": ex["wall_s"],
+        "status_counts": by_status, "borderline_draws": n_border, "declared_tolerance_fallback_draws": n_declared,
+        "workers": ex["workers"], "wall_s": ex["wall_s"],
         "tolerance": "K_D*max(|jax32-jax64|,|jax32(x)-jax32(x(1+-eps))|) + K_E*eps*|ref| + K_N*(rms terms) + K_A*eps "
-                     f"with K_D={X.K_D}, K_E={X.K_E}, K_N={X.K_N}, K_A={X.K_A}; integers/bools bit-identical",
+                     f"with K_D={X.K_D}, K_E={X.K_E}, K_N={X.K_N}, K_A={X.K_A}; finding only beyond {X.BORDERLINE} x that; "
+                     "integers/bools bit-identical",
     })
     if thorough:
         try:
@@ -931,25 +937,51 @@ PRIM_OF = {"round_away": "round", "round_even": "round", "shl": "shift_left", "s
            "bnot": "not", "band": "and", "bor": "or", "bxor": "xor"}
 
 
+def failure_class(d: dict) -> str:
+    import math
+    if d.get("status") == "ort_run_error":
+        return "ort_run_error"
+    why = d.get("why", "")
+    if "shape ORT" in why or "output count" in why:
+        return "shape"
+    if "dtype kind" in why:
+        return "dtype_kind"
+    if "integer/bool" in why:
+        return "int_values"
+    o, j = d.get("ort"), d.get("jax")
+    try:
+        of, jf = float(o), float(j)
+        if not math.isfinite(of) and math.isfinite(jf):
+            return "ort_nonfinite_jax_finite"
+        if math.isfinite(of) and not math.isfinite(jf):
+            return "ort_finite_jax_inf"
+    except Exception:
+        pass
+    return "float_values"
+
+
 def exploration_findings(r: dict):
-    """(key, what, replay) for each failing draw kind of one explored testcase."""
-    cid = r.get("id")
+    """(key, what, replay) for each failing (draw kind, failure class) of one explored testcase."""
+    cid = r.get("id") or ""
+    comp = "/".join(cid.split("/")[:2])
     st = r.get("status")
     if st in ("ort_load_error", "crash"):
-        yield ({"where": "exploration", "testcase": cid, "kind": st},
+        yield ({"where": "exploration", "component": comp, "testcase": cid, "cls": st},
                f"{cid}: {st} {r.get('error', '')[:160]}", {"result": r})
         return
     seen = set()
     for d in r.get("draws", []):
         if d.get("status") in ("mismatch", "ort_run_error"):
-            k = (d["kind"], d["status"])
+            cls = failure_class(d)
+            k = (d["kind"], cls)
             if k in seen:
                 continue
             seen.add(k)
             what = d.get("why") or d.get("error", "")
-            yield ({"where": "exploration", "testcase": cid, "kind": d["kind"], "status": d["status"]},
-                   f"{cid} [{d['kind']}]: {what[:120]} ort={d.get('ort')} jax={d.get('jax')}",
-                   {"index": r.get("index"), "draw": d, "how": f"VERIF_SEED=<seed> /venv/bin/python harness/c01_explore.py {r.get('index')}"})
+            yield ({"where": "exploration", "component": comp, "testcase": cid, "kind": d["kind"], "cls": cls},
+                   f"{cid} [{d['kind']}, {cls}]: {what[:110]} ort={d.get('ort')} jax={d.get('jax')}",
+                   {"index": r.get("index"), "draw": d,
+                    "how": f"VERIF_SEED=<seed> /venv/bin/python harness/c01_explore.py {r.get('index')}"})
 
 
 def replay(path: str) -> int:
